@@ -2,7 +2,7 @@
 ID = 'C08'
 LEVEL = 'exploration'
 LEVEL_TEXT = ('exploration: run-time contracts on the real parser with recording fetchers over the complete precedence matrix (override x transport x BOM/@charset/neither x parent x bytes/text x '
-              'fetcher answer) for one import, for parseUrl / parseString / _readUrl, and for import chains of depth 3 with every level configured independently; sheet.encoding against a model '
+              'fetcher answer; delivered content with style rules, with NOTHING behind the signature - zero-length bytes / text - or with a comment only) for one import, for parseUrl / parseString / _readUrl, and for import chains of depth 3 with every level configured independently (also with an empty leaf); sheet.encoding against a model '
               'of the @charset rule over all assignment histories up to length 3; serialisation decodable and lossless for one non-ASCII character at 27 syntactic positions x 8 target encodings')
 LEVEL_NOTE = ('bounded: four 8-bit encodings (utf-8, iso-8859-1, koi8-r, cp1251) with the byte payload D0 B6 plus hand-listed UTF-16 rows, depth <= 3, one import per sheet, eight sample characters; '
               'decoding done inside the codecs module and unknown charset names are outside the domain')
